@@ -674,7 +674,7 @@ def gates(stats, tier):
         "rule:instructions_well_formed_and_sources_prepared_earlier", "rule:returned_plan_prepares_every_column_once",
         "rule:transfer_volumes_are_whole_microlitres", "rule:transfer_volume_at_least_min_transfer",
         "rule:transfer_volume_at_most_vmax_of_target", "rule:plan_draws_at_most_what_source_column_holds",
-        "rule:reported_concentrations_equal_those_implied_by_instructions", "rule:xmin_xmax_are_extremes_of_x",
+        "rule:x_has_shape_R_by_C", "rule:reported_concentrations_equal_those_implied_by_instructions", "rule:xmin_xmax_are_extremes_of_x",
         "rule:v_stock_is_sum_of_stock_transfers", "rule:v_diluent_is_total_volume_minus_v_stock", "rule:max_steps_is_deepest_dilution",
         "rule:refusal_is_a_ValueError", "rule:unmeetable_request_is_refused",
         "rule:execution_of_returned_plan_completes", "rule:tracked_concentration_equals_reported_in_every_dilution_well",
